@@ -168,6 +168,7 @@ func (p profile) node(i int) model.BuildNode {
 }
 
 type selCfg struct {
+	pat2    int // second pattern: 0 none, else index+1 into patTexts
 	pat     int
 	typ     TargetTypeSelection
 	tag     string
@@ -189,9 +190,18 @@ func patOracle(pat int, pkg string) bool {
 	return sym.StrEq(pkg, "a/b")
 }
 
+func (c selCfg) patMatches(pkg string) bool {
+	m := patOracle(c.pat, pkg)
+	if c.pat2 > 0 {
+		m = sym.Or(m, patOracle(c.pat2-1, pkg))
+	}
+	return m
+}
+
 func symSel() (selCfg, *Selector) {
 	c := selCfg{}
 	c.pat = sym.Choice("pat", len(patTexts))
+	c.pat2 = []int{0, 2, 4}[sym.Choice("second_pattern", 3)] // none, //a:all, //a/b:all
 	c.typ = []TargetTypeSelection{AllTargets, TestOnly, NonTestOnly}[sym.Choice("type", 3)]
 	c.tag = []string{"", "t1"}[sym.Choice("seltag", 2)]
 	c.exclude = []string{"", "t2"}[sym.Choice("selexclude", 2)]
@@ -204,17 +214,21 @@ func symSel() (selCfg, *Selector) {
 		ex = []string{c.exclude}
 	}
 	config.Global.OS, config.Global.Arch, config.Global.AllPlatforms = "linux", "amd64", c.allPlat
-	return c, New([]label.TargetPattern{mustPattern("", patTexts[c.pat])}, tags, ex, c.typ)
+	pats := []label.TargetPattern{mustPattern("", patTexts[c.pat])}
+	if c.pat2 > 0 {
+		pats = append(pats, mustPattern("", patTexts[c.pat2-1]))
+	}
+	return c, New(pats, tags, ex, c.typ)
 }
 
 func (c selCfg) matchesFilters(p profile) bool {
 	if p.alias {
-		return patOracle(c.pat, p.pkg)
+		return c.patMatches(p.pkg)
 	}
 	typeOK := c.typ == AllTargets || (c.typ == TestOnly && p.test) || (c.typ == NonTestOnly && !p.test)
 	tagOK := c.tag == "" || p.tag == c.tag
 	exOK := c.exclude == "" || p.tag != c.exclude
-	return sym.And(typeOK && tagOK && exOK, patOracle(c.pat, p.pkg))
+	return sym.And(typeOK && tagOK && exOK, c.patMatches(p.pkg))
 }
 
 func (c selCfg) platformOK(p profile) bool {
